@@ -110,9 +110,11 @@ def loop_body_paths(f, cfg, hdr, limit=4000):
     return out, body
 
 
-def r7_first_result_kept(ctx):
-    rid = "C07.R7"
-    ctx.rule(rid, "in Search::best_move a completed, non-aborted iteration is never discarded while no earlier result exists: every path through one iteration on which the search was not aborted either stores its move as the answer or has tested that an answer already exists (otherwise a zero or near-zero time budget yields `bestmove 0000` in a position with legal moves)", floor=1)
+def r7_first_result_kept(ctx, rid="C07.R7", interrupted_only=False):
+    if interrupted_only:
+        ctx.rule(rid, "in Search::best_move an iteration during which the stop flag was raised is never accepted as the answer: bestmove, score and principal variation come from the last iteration that ran to its end", floor=1)
+    else:
+      ctx.rule(rid, "in Search::best_move a completed, non-aborted iteration is never discarded while no earlier result exists: every path through one iteration on which the search was not aborted either stores its move as the answer or has tested that an answer already exists (otherwise a zero or near-zero time budget yields `bestmove 0000` in a position with legal moves)", floor=1)
     from ..expr import PathEval
     f = ctx.fn(rid, SEARCH + "best_move")
     cfg = Cfg(f)
@@ -179,6 +181,16 @@ def r7_first_result_kept(ctx):
         lvs = explore(f, var_of, domains, entry=rec[0], stop_at=lambda b: b == hdr, max_leaves=20000)
     except TooBig as e:
         ctx.lost(rid, "one iteration of Search::best_move as a decision table (%s)" % e)
+        return
+    # an interrupted iteration (stop flag up) is never the answer
+    viol_i, und_i, n_i = judge(lvs, ["stop", "found", "earlier"], domains, lambda lf: bool(store & set(lf.path)),
+                               lambda e: False, lambda e: e["stop"] == 1)
+    ok_i = n_i >= 1 and not viol_i
+    ctx.ob(rid, "best_move|interrupted-iteration-not-accepted", ok_i,
+           "" if ok_i else ("when the stop flag is up after an iteration (%s) Search::best_move still stores that iteration's move as the answer: bestmove, score and depth then come from an unfinished iteration whose root moves were only partly searched" % (
+               ", ".join("%s=%s" % kv for kv in sorted(viol_i[0][0].items()))) if viol_i else "no path with the stop flag up found"),
+           ctx.where(f), sample={"cases": n_i})
+    if interrupted_only:
         return
     viol, und, n = judge(lvs, ["stop", "found", "earlier"], domains, lambda lf: bool(store & set(lf.path)),
                          lambda e: True, lambda e: e["stop"] == 0 and e["found"] == 1 and e["earlier"] == 0)
